@@ -57,6 +57,35 @@ mut("C01", "hastag-missing-entity-errors", ("internal/eval/evalers.go", """	e, o
 	if !ok {
 		return zeroValue(), fmt.Errorf("entity `%v` %w", eid.String(), errEntityNotExist)
 	}"""))
+mut("C01", "attr-access-memo-across-requests", ("internal/eval/evalers.go", """type attributeAccessEval struct {
+	object    Evaler
+	attribute types.String
+}""", """type attributeAccessEval struct {
+	object    Evaler
+	attribute types.String
+	lastUID   types.EntityUID
+	lastVal   types.Value
+}"""), ("internal/eval/evalers.go", """		rec, ok := env.Entities.Get(vv)
+		if !ok {
+			return zeroValue(), fmt.Errorf("entity `%v` %w", vv.String(), errEntityNotExist)
+		}
+		val, ok := rec.Attributes.Get(n.attribute)
+		if !ok {
+			return zeroValue(), fmt.Errorf("`%s` %w `%s`", vv.String(), errAttributeAccess, n.attribute)
+		}
+		return val, nil""", """		if n.lastVal != nil && n.lastUID == vv {
+			return n.lastVal, nil
+		}
+		rec, ok := env.Entities.Get(vv)
+		if !ok {
+			return zeroValue(), fmt.Errorf("entity `%v` %w", vv.String(), errEntityNotExist)
+		}
+		val, ok := rec.Attributes.Get(n.attribute)
+		if !ok {
+			return zeroValue(), fmt.Errorf("`%s` %w `%s`", vv.String(), errAttributeAccess, n.attribute)
+		}
+		n.lastUID, n.lastVal = vv, val
+		return val, nil"""))
 mut("C01", "multicast-prefix", ("types/ipaddr.go", "return i.Addr().IsMulticast() && i.Prefix().Bits() >= minPrefixLen", "_ = minPrefixLen\n\treturn i.Addr().IsMulticast()"))
 
 # ---- C02
